@@ -825,6 +825,17 @@ func (u *Unit) specCall(env *specEnv, x *ast.CallExpr) Val {
 		fn := smtName("implements$iface{" + strings.Join(ms, ",") + "}")
 		u.decls.declFun(fn, []string{SInt}, SBool)
 		return boolVal(tAnd(tNot(tEq(v.S, "0")), tApp(fn, tApp("dyntype", v.S))))
+	case "holds":
+		// holds(x.mu): this goroutine holds the lock x.mu at this point (for on_close conditions)
+		se, ok := x.Args[0].(*ast.SelectorExpr)
+		if !ok {
+			panic(specError{env.where + ": holds() needs x.mu"})
+		}
+		owner := u.specEval(env, se.X)
+		key := owner.S + "." + se.Sel.Name
+		_, w := env.st.held[key]
+		_, r := env.st.held[key+"#r"]
+		return scalar(tBool(w || r), SBool, types.Typ[types.Bool])
 	case "errmatch":
 		// errmatch(err, target): what errors.Is(err, target) answers (the engine's err_is relation)
 		a := u.specEval(env, x.Args[0])
